@@ -727,6 +727,9 @@ func (v *Protocol) onPacketWriten(m *Message, pkt Packet) (err error) {
 		tid, name = pkt.TransactionID, pkt.CommandName
 	case *CreateStreamPacket:
 		tid, name = pkt.TransactionID, pkt.CommandName
+	case *SetChunkSize:
+		// The peer uses the new chunk size for the following messages of us.
+		v.output.opt.chunkSize = pkt.ChunkSize
 	}
 
 	if tid > 0 && len(name) > 0 {
